@@ -4,3 +4,6 @@ from .kernels import run_c09
 
 def run(ctx):
     run_c09(ctx)
+    # the signature (and table) these formulas read are the ones the caller handed to build_sampler (restated from C05-b)
+    from .restate import restate_sampler_is_callers
+    restate_sampler_is_callers(ctx)
